@@ -673,7 +673,7 @@ OBLIGATIONS = [
     _ob("c18_commute_variadic", 300, "host leaves symbolic: op-type indices, number of operands of the inner node (1..3), operand order of the root"),
     _ob("c17_commute_optional", 300, "host leaves symbolic: op-type indices of the inner and the root node, operand order of the root, presence of the optional third input and whether it is None"),
     _ob("c16_or_commit", 300, "host leaves symbolic: two op-type indices and which value (the inner node's output / its input / another input) is the root's second operand"),
-    _ob("c15_or_shared_node", 300, "host leaves symbolic: four op-type indices, whether the root's second operand is the node under the first alternative or a sibling, and the sibling's input"),
+    *_ob("c15_or_shared_node", 300, "host leaves symbolic: four op-type indices, whether the root's second operand is the node under the first alternative or a sibling, and the sibling's input (sliced on the first index)", slice_=("i0", 5)),
     _ob("c20_output_count", 200, "host leaves symbolic: op-type indices, number of outputs of the host node (1..3), which output feeds the consumer"),
     _ob("c21_const_kinds", 200, "host leaves symbolic: op-type index, kind of the constant payload (float / bytes / str / bool / int), rank 0..1"),
     _ob("c22_commute_or", 300, "host leaves symbolic: op-type indices of root and inner node, operand order"),
